@@ -150,6 +150,28 @@ func c12Run(r *rt.Rec, rng *rand.Rand, n int) {
 			r.Count("base_query_failed", 1)
 			continue
 		}
+		if rng.Intn(4) == 0 && t0.NumRows() >= 3 && t0.NumRows() <= 1500 {
+			// ORDER BY / LIMIT combined with HAVING: the filter must neither
+			// disturb the order nor the choice of the first n rows
+			hk := map[string]string{}
+			ck := columnKinds(t0, base.OutBindings())
+			for _, b := range base.OutBindings() {
+				k := onlyKind(ck[b])
+				if k == "str" {
+					k = "text"
+				}
+				hk[b] = k
+			}
+			for tries := 0; tries < 4; tries++ {
+				hq := *base
+				hq.Having = gen.HavingExpr(rng, hk, 1+rng.Intn(2), false).Text()
+				if th, herr, hpan := runQ(ctx, r, data, hq.Text()); !hpan && herr == nil && th != nil && th.NumRows() >= 2 && th.NumRows() < t0.NumRows() {
+					base, t0 = &hq, th
+					r.Count("queries_with_having", 1)
+					break
+				}
+			}
+		}
 		N := t0.NumRows()
 		if N > 1500 {
 			continue
